@@ -103,8 +103,17 @@ class TierHistory:
                 ents[i] = (a[1], a[0], a[2])
             else:
                 ents[i], ents[i + 1] = ents[i + 1], ents[i]
-        if r.random() < 0.15:
+        x = r.random()
+        if x < 0.15:
             ents = [list(e) for e in ents]  # lists instead of tuples
+        elif x < 0.30:
+            # ready-made namedtuples with float times, as another tier's .entries would hand them over - the label of one of them is
+            # whatever the caller put there
+            nt = self.Interval if klass is self.I else self.Point
+            ents = [nt(*[float(v) for v in e[:-1]], e[-1]) for e in ents]
+            if ents and r.random() < 0.4:
+                i = r.randrange(len(ents))
+                ents[i] = nt(*ents[i][:-1], r.choice([" pad", "pad \n", "\tx y\t"]))
         lo = r.choice([0.0, 0.0, None, self.src(self.hi) / 4])
         hi = r.choice([self.hi, None, self.hi + self.src(self.hi)])
         if not ents and (lo is None or hi is None):
